@@ -4,6 +4,7 @@ mod explorer;
 mod graphs;
 mod hooks;
 mod market;
+mod register_h;
 mod spawnrt;
 mod testers;
 
@@ -26,6 +27,7 @@ fn main() {
             arg(&args, "--m").and_then(|s| s.parse().ok()).unwrap_or(2),
             arg(&args, "--seed").and_then(|s| s.parse().ok()).unwrap_or(1),
         ),
+        "register" => register_h::main_register(&inp, &out),
         "spawn" => spawnrt::main_spawn(&inp, &out),
         "idaddr" => spawnrt::main_idaddr(
             &out,
